@@ -10,6 +10,7 @@ import (
 	"net/url"
 	"reflect"
 	"sort"
+	"strconv"
 	"strings"
 	"testing"
 	"time"
@@ -298,6 +299,14 @@ func checkC12(c c12Case) verdict {
 		step int
 		op   string
 	}
+	// byte fields of OCRA inputs the caller built with the library's own helpers and has passed in: they are the caller's
+	// from then on, whatever operation runs later
+	type keptField struct {
+		b, was []byte
+		what   string
+		step   int
+	}
+	var keptFields []keptField
 	var keptErrs []keptErr
 	keepErr := func(err error, step int, op string) {
 		if err != nil {
@@ -569,6 +578,32 @@ func checkC12(c c12Case) verdict {
 			}
 			nt = true
 		case "Helpers":
+			// an OCRA input whose fields come from the helpers, passed in once and kept by the caller (compared after every
+			// later step, which may be any operation)
+			{
+				dec := strconv.FormatUint(st.U, 10)
+				cnt := otp.To8ByteBigEndian(st.U)
+				ts, _ := otp.ParseDecimal64BigEndian(dec)
+				cnt2, _ := otp.ParseDecimalToBigEndian8(dec)
+				hts, _ := otp.ParseHexTimestamp(fmt.Sprintf("%x", st.U))
+				q, _ := otp.ParseDecimalChallengeRFC6287(dec)
+				mh := otp.MustHexPadLeft(fmt.Sprintf("%x", st.U|1), 8)
+				if su, serr := otp.NewRawSuite("OCRA-1:HOTP-SHA1-6:C-QN08-T1M"); serr == nil {
+					otp.GenerateOCRA(c12Secret, su, otp.OCRAInput{Counter: cnt, Challenge: q, Timestamp: ts})
+					otp.ValidateOCRA(c12Secret, "123456", su, otp.OCRAInput{Counter: cnt2, Challenge: q, Timestamp: hts})
+				}
+				for _, f := range []struct {
+					b    []byte
+					what string
+				}{{cnt, "To8ByteBigEndian"}, {ts, "ParseDecimal64BigEndian"}, {cnt2, "ParseDecimalToBigEndian8"}, {hts, "ParseHexTimestamp"}, {q, "ParseDecimalChallengeRFC6287"}, {mh, "MustHexPadLeft"}} {
+					if f.b != nil {
+						keptFields = append(keptFields, keptField{f.b, append([]byte(nil), f.b...), f.what, i})
+					}
+				}
+				if len(keptFields) > 60 {
+					keptFields = keptFields[len(keptFields)-60:]
+				}
+			}
 			a := otp.To8ByteBigEndian(st.U)
 			wantA := append([]byte(nil), a...)
 			for k := range a {
@@ -728,6 +763,11 @@ func checkC12(c c12Case) verdict {
 				return bad(true, labels, "the error %s returned in step %d reads differently after step %d (the caller has re-used its buffers since): %q -> %q", k.op, k.step, i, k.text, now)
 			}
 		}
+		for _, k := range keptFields {
+			if !bytes.Equal(k.b, k.was) {
+				return bad(true, labels, "an OCRA input field the caller had built with %s in step %d and passed in changed during step %d (%s): %x -> %x", k.what, k.step, i, st.Op, k.was, k.b)
+			}
+		}
 		for _, k := range keptParams {
 			if *k.p != k.was {
 				return bad(true, labels, "the *Param passed to %s in step %d changed during step %d (%s): %+v -> %+v", k.op, k.step, i, st.Op, k.was, *k.p)
@@ -743,7 +783,7 @@ func checkC12(c c12Case) verdict {
 }
 
 var c12Main = newPart("C12", "histories",
-	"rapid: histories of 1..12 calls over all operations taking slices, pointers or structs (GenerateOCRA, ValidateOCRA, OCRAInput.Validate, Generate/Validate HOTP/TOTP with *Param incl. nil and period 0, Generate{TOTP,HOTP}URL, ParseOTPAuthURL, NewSuite, registry lookups with scribbling over returned values, nil-parameter calls after the caller installed its own (also incomplete) default parameter sets, helper results, the padding helper through its hook); every OCRA byte field presented as len==cap, as a prefix of a larger array whose spare capacity holds canary bytes, or as a middle sub-slice, lengths {nil,0,1,7,8,9,127,128,129} or random 0..140; oracle: byte-wise equality of full backing arrays (incl. capacity behind the length), Param / SuiteConfig / URLParam / url.URL copies, DefaultHOTPParam, DefaultTOTPParam (values and pointers) and the whole suite registry — through its accessors and, read directly through the hook VerifRegistry, the package variable itself rendered deeply whatever its type — before vs after every call; validation steps submit the reference's correct code in half of the cases (the accepting path); retained result strings compared with independent copies after every later call and after scribbling over the arguments; non-trivial = a field with spare capacity that is shorter than its pad width, or a nil-param call, or a period-0 call",
+	"rapid: histories of 1..12 calls over all operations taking slices, pointers or structs (GenerateOCRA, ValidateOCRA, OCRAInput.Validate, Generate/Validate HOTP/TOTP with *Param incl. nil and period 0, Generate{TOTP,HOTP}URL, ParseOTPAuthURL, NewSuite, registry lookups with scribbling over returned values, nil-parameter calls after the caller installed its own (also incomplete) default parameter sets, helper results - also kept as the fields of an OCRA input that was passed in and compared after every later step -, the padding helper through its hook); every OCRA byte field presented as len==cap, as a prefix of a larger array whose spare capacity holds canary bytes, or as a middle sub-slice, lengths {nil,0,1,7,8,9,127,128,129} or random 0..140; oracle: byte-wise equality of full backing arrays (incl. capacity behind the length), Param / SuiteConfig / URLParam / url.URL copies, DefaultHOTPParam, DefaultTOTPParam (values and pointers) and the whole suite registry — through its accessors and, read directly through the hook VerifRegistry, the package variable itself rendered deeply whatever its type — before vs after every call; validation steps submit the reference's correct code in half of the cases (the accepting path); retained result strings compared with independent copies after every later call and after scribbling over the arguments; non-trivial = a field with spare capacity that is shorter than its pad width, or a nil-param call, or a period-0 call",
 	checkC12)
 
 var c12Ops = []string{"GenerateOCRA", "GenerateOCRA", "GenerateOCRA", "ValidateOCRA", "OCRAInput.Validate", "GenerateHOTP", "ValidateHOTP", "GenerateTOTP", "GenerateTOTP", "ValidateTOTP", "ValidateTOTP",
